@@ -25,9 +25,9 @@ Payload(L) == [i \in 1..L |-> D(i)]
 
 -----------------------------------------------------------------------------
 (* Declarative reference: what the parts of rule k/m for a payload of length L must be. *)
-RefData(k, L, i) == LET P == PartLen(k, L) IN
-                    [o \in 1..P |-> IF (i - 1) * P + o <= L THEN D((i - 1) * P + o) ELSE Zero]
-RefCol(k, L, o) == [i \in 1..k |-> RefData(k, L, i)[o]]
+RefSym(k, L, i, o) == IF (i - 1) * PartLen(k, L) + o <= L THEN D((i - 1) * PartLen(k, L) + o) ELSE Zero
+RefData(k, L, i) == [o \in 1..PartLen(k, L) |-> RefSym(k, L, i, o)]
+RefCol(k, L, o) == [i \in 1..k |-> RefSym(k, L, i, o)]
 RefPart(k, m, L, i) == IF i <= k THEN RefData(k, L, i)
                        ELSE [o \in 1..PartLen(k, L) |-> Par(i - k, RefCol(k, L, o))]
 RefParts(k, m, L) == [i \in 1..(k + m) |-> RefPart(k, m, L, i)]
@@ -64,11 +64,14 @@ Encode(k, m, L, mem) ==
   ELSE
   LET s == Split(k, m, L, mem)
       P == CeilDiv(L, k)
-      Col(o) == [i \in 1..k |-> Deref(s.shards[i], s.mem)[o]]
+      Cell(i, o) == IF s.shards[i].own THEN s.shards[i].cells[o] ELSE s.mem[s.shards[i].off + o]   \* data shard i, offset o
+      Col(o) == [i \in 1..k |-> Cell(i, o)]
       ParCells(j) == [o \in 1..P |-> Par(j - k, Col(o))]
-      Writer(c) == {j \in (k + 1)..(k + m) : ~s.shards[j].own /\ c > s.shards[j].off /\ c <= s.shards[j].off + P}
-      mem2 == [c \in 1..Len(s.mem) |-> IF Writer(c) # {} THEN LET j == CHOOSE j \in Writer(c) : TRUE
-                                                                IN ParCells(j)[c - s.shards[j].off]
+      \* view shards are contiguous from the start of the buffer: cell c lies in shard ((c-1) div P) + 1
+      ShardOf(c) == ((c - 1) \div P) + 1
+      IsParityView(c) == LET i == ShardOf(c) IN i > k /\ i <= k + m /\ ~s.shards[i].own
+      mem2 == [c \in 1..Len(s.mem) |-> IF IsParityView(c)
+                                       THEN Par(ShardOf(c) - k, Col(c - (ShardOf(c) - 1) * P))   \* parity written into the buffer
                                        ELSE s.mem[c]]
   IN [mem |-> mem2,
       shards |-> [i \in 1..(k + m) |-> IF i > k /\ s.shards[i].own THEN Own(ParCells(i)) ELSE s.shards[i]]]
@@ -134,6 +137,8 @@ EncodeAll(rules, L, mem, encs) ==        \* returns [mem, encs] after encoding r
 \* indexes of the rules whose parts, read AFTER all rules were encoded, differ from their reference encoding
 MultiCorrupted(rules, L, slack) ==
   IF slack = 0 \/ L = 0 THEN {}          \* no spare capacity: data shards alias the payload read-only, the rest is allocated
+  ELSE IF \A e \in 1..Len(rules) : ((L + slack) \div PartLen(rules[e][1], L)) * PartLen(rules[e][1], L) <= L
+       THEN {}                           \* no shard of any rule reaches into the spare capacity: nothing there is ever read
   ELSE LET fin == EncodeAll(rules, L, BufferWithSlack(L, slack), <<>>) IN
        {e \in 1..Len(rules) : \E i \in 1..(rules[e][1] + rules[e][2]) :
             Deref(fin.encs[e][i], fin.mem) # RefPart(rules[e][1], rules[e][2], L, i)}
